@@ -774,10 +774,17 @@ def check_lib(rep, bad, rnd, c, d, fk, libk, fj, libj, k):
             f1, f2 = getattr(libj, name), getattr(libk, name)
         if f1 is f2:
             rep.stat('functions_same_object')
-        a1 = int(fj.cast('uintptr_t', fj.addressof(libj, name)))
-        a2 = int(fk.cast('uintptr_t', fk.addressof(libk, name)))
+        if rnd.random() < 0.5:           # the includer's addressof before the owner's
+            rep.stat('addressof_first_asked_through_includer')
+            p2, p1 = fk.addressof(libk, name), fj.addressof(libj, name)
+        else:
+            p1, p2 = fj.addressof(libj, name), fk.addressof(libk, name)
+        a1, a2 = int(fj.cast('uintptr_t', p1)), int(fk.cast('uintptr_t', p2))
         if a1 != a2:
             bad('function-address-differs', '%s: %#x in its lib, %#x through lib %d' % (name, a1, a2, k))
+        if fk.typeof(p2) is not fj.typeof(p1):
+            bad('function-pointer-type-differs', 'addressof(lib, %r): %r in its lib, %r through lib '
+                '%d' % (name, fj.typeof(p1), fk.typeof(p2), k))
         ft = d['ftype']
         if all(c.is_arith(a) for a in ft['args']):
             args = [rnd.randrange(0, 2) if c.resolve(a).get('name') == '_Bool' else
@@ -785,6 +792,13 @@ def check_lib(rep, bad, rnd, c, d, fk, libk, fj, libj, k):
                     for a in ft['args']]
             r1, r2 = f1(*args), f2(*args)
             rep.stat('function_calls_through_includer')
+            try:
+                r3 = p2(*args)           # through the includer's addressof() pointer
+            except Exception as e:
+                r3 = '%s: %s' % (type(e).__name__, e)
+            if r3 != r1 and not (r1 != r1 and r3 != r3):
+                bad('function-result-differs:addressof', '%s%r: %r in its lib, %r through the '
+                    'pointer from addressof(lib %d)' % (name, tuple(args), r1, r3, k))
             if r1 != r2 and not (r1 != r1 and r2 != r2):
                 bad('function-result-differs', '%s%r: %r in its lib, %r through lib %d' %
                     (name, tuple(args), r1, r2, k))
